@@ -233,6 +233,11 @@ def lim_setname(c, a):
     given = nm(n)
     back = None
     big = n + 70100
+    # (the V layer keeps packing buffers that only ever grow: let go of them, so that every request sizes its own;
+    #  the session's own file is closed meanwhile)
+    h_close(c)
+    L.VPshutdown()
+    L.VSPhshutdown()
     if kind in ("vsname", "vsclass", "field"):
         fid = L.Hopen(p, DFACC_CREATE, 0)
         L.Vinitialize(fid)
@@ -379,6 +384,7 @@ def lim_setname(c, a):
                 back = given if (ok and ln == len(given)) else b"?unreadable"
                 L.SDendaccess(s)
                 L.SDend(sd)
+    h_open(c)
     return {"outcome": classify(given, back), "len": len(back) if back is not None else -1}
 
 
